@@ -154,7 +154,7 @@ def gen_case(rng, tier, k):
     mods = {}      # id -> ir
     kinds = {}
     pool = ["good", "good", "dep", "failing", "faildep", "broken", "missdep",
-            "cyc2", "cyc3", "good"]
+            "cyc2", "cyc3", "good", "truncated"]
     rng.shuffle(pool)
     nk = rng.randrange(3, 7)
     n = 0
@@ -185,6 +185,15 @@ def gen_case(rng, tier, k):
             mid = f"mk{n}"
             mods[mid] = g.module_ir(mid, broken=True)
             kinds[mid] = "broken"
+        elif kind == "truncated":
+            # a file cut in the middle of a statement: "unexpected end of
+            # input" while the module is being loaded
+            mid = f"mt{n}"
+            mods[mid] = [["raw", rng.choice([
+                "print('LOAD " + mid + "|');\ndef val = 1;\ndef f() do\n  1;\n",
+                "print('LOAD " + mid + "|');\ndef val = [1, 2,\n",
+                "def val = (1 +\n"])]]
+            kinds[mid] = "truncated"
         elif kind == "missdep":
             mid = f"mm{n}"
             mods[mid] = g.module_ir(mid, deps=[f"nosuch{n}"])
@@ -213,7 +222,11 @@ def gen_case(rng, tier, k):
                 # the shadowed copy is different: must never be the one used
                 ir2 = [["mark", "LOAD-SHADOW " + mid],
                        ["def", "val", -1], ["def", "shadow", 1]]
-            files[f"{d}/{mid}.ckl"] = {"ir": ir2}
+            if len(ir2) == 1 and ir2[0][0] == "raw":
+                # written verbatim: the file really ends in mid-statement
+                files[f"{d}/{mid}.ckl"] = {"raw": ir2[0][1]}
+            else:
+                files[f"{d}/{mid}.ckl"] = {"ir": ir2}
 
     share_env = two and rng.random() < 0.5
     host = "api"
@@ -228,6 +241,16 @@ def gen_case(rng, tier, k):
     # generation-time model, to keep the generator's idea of the state
     mstore = make_model_store(case)
     gm = {i["name"]: lang.Machine(mstore, i["name"]) for i in insts}
+    for i in insts:
+        gm[i["name"]].nonsecure = not i["secure"]
+    # script files for the script runner of non-secure interpreters
+    for j in range(2):
+        files[f"/sim/scripts/s{j}.ckl"] = {"ir": [
+            ["def", f"i_run{j}", rng.randrange(100)],
+            ["mark", f"SCRIPT s{j}"],
+            ["expr", ["v", f"i_run{j}"]]]}
+    mstore.files.update({k: v for k, v in files.items()
+                         if k.startswith("/sim/scripts/")})
     persistent = []
     fault_rate = rng.choice([0, 0, 0.05, 0.1, 0.25])
     nops = rng.randrange(3, 31)
@@ -365,6 +388,9 @@ def gen_case(rng, tier, k):
 
     def gen_require(scope):
         mid = rng.choice(allmods)
+        trunc = [x for x in allmods if kinds.get(x) == "truncated"]
+        if trunc and rng.random() < (0.3 if host == "repl" else 0.1):
+            mid = rng.choice(trunc)
         if two and rng.random() < 0.4:
             # prefer what some instance has already loaded: the other one
             # must load its own copy
@@ -492,13 +518,27 @@ def gen_case(rng, tier, k):
             kind = rng.choice(
                 ["state", "state", "read", "fn", "call", "fail", "multifail",
                  "syntax", "loopabort", "require", "require", "require",
-                 "moduse", "moduse", "sentinel", "failstorm", "appear"])
+                 "moduse", "moduse", "sentinel", "failstorm", "appear",
+                 "runfile"])
             if kind == "appear":
                 # a module that was missing appears in the store (or a
                 # present one disappears) between two commands
                 d = (store["paths"] or [MOD_HOME])[0] \
                     if loc not in ("home", "both") else MOD_HOME
-                if rng.random() < 0.7:
+                r2 = rng.random()
+                loaded_files = sorted(
+                    pth for pth in mstore.files
+                    if pth.endswith(".ckl") and "/scripts/" not in pth and
+                    any(pth.endswith("/" + x + ".ckl")
+                        for mm in gm.values() for x in mm.loaded))
+                if r2 < 0.35 and loaded_files:
+                    # an already loaded module's file is rewritten with
+                    # the same content (new modification time): nothing
+                    # may be reloaded
+                    pth = rng.choice(loaded_files)
+                    op = {"kind": "putfile", "path": pth,
+                          "ir": mstore.files[pth]["ir"]}
+                elif r2 < 0.75:
                     mid = rng.choice(missing)
                     ir = g.module_ir(mid)
                     op = {"kind": "putfile", "path": f"{d}/{mid}.ckl",
@@ -508,7 +548,8 @@ def gen_case(rng, tier, k):
                     kinds[mid] = "good"
                 else:
                     cands = sorted(pth for pth in mstore.files
-                                   if "/zs." not in pth)
+                                   if "/zs." not in pth
+                                   and "/scripts/" not in pth)
                     pth = rng.choice(cands)
                     op = {"kind": "rmfile", "path": pth}
                     mstore.files.pop(pth, None)
@@ -565,7 +606,8 @@ def gen_case(rng, tier, k):
                               ["l", list(range(nloop))], body])
             elif kind == "require":
                 st, mid = gen_require(scope)
-                if rng.random() < 0.3:
+                if rng.random() < (0.7 if kinds.get(mid) == "truncated"
+                                   else 0.3):
                     stmts.append(gen_state_stmt(scope))
                 stmts.append(st)
                 if rng.random() < 0.3:
@@ -578,6 +620,10 @@ def gen_case(rng, tier, k):
             elif kind == "sentinel":
                 stmts.append(["req", "plain", {"id": "zs"}, None])
                 stmts.append(["expr", ["mget", "zs", "val"]])
+            elif kind == "runfile":
+                stmts.append(["runf", f"/sim/scripts/s{rng.randrange(2)}.ckl"])
+                if rng.random() < 0.5:
+                    stmts.append(gen_read(scope))
             elif kind == "failstorm":
                 # many failures unwinding through nested function calls in
                 # one command, each handled; afterwards calls still work
@@ -628,7 +674,8 @@ def gen_case(rng, tier, k):
                     choices.append({"site": "out.write",
                                     "nth": rng.randrange(0, max(1, nmarks)),
                                     "err": rng.choice(["EIO", "ENOSPC",
-                                                       "VALUE"])})
+                                                       "VALUE", "TYPE",
+                                                       "ATTR", "RUNTIME"])})
                 f = rng.choice(choices)
                 if f["site"] != "out.write" and rng.random() < 0.3:
                     f["persist"] = True
